@@ -24,7 +24,11 @@ import (
 //   oversize: a few > 64 KiB inputs whose records re-pack to more than 65535
 //             bytes of RDATA;
 //   svcparams: raw SVCB/HTTPS records whose SvcParams are every short key
-//             sequence over {0,1,2,65535} in every order, duplicates included.
+//             sequence over {0,1,2,65535} in every order, duplicates included;
+//   small:    the small valid/invalid messages of the reuse family;
+//   reuse:    (first message A, operation sequence on A, second message B): the
+//             same Parser value is abandoned on A after the operations and
+//             Start()ed again on B (see "Parser reuse" below).
 // Oracle, for every input: no panic; Message.Unpack, the one-record-at-a-time
 // Parser methods, the typed XHeader+XResource methods and the AllX methods
 // agree on accept/reject, on the error and on the content; wherever a parse
@@ -34,7 +38,8 @@ import (
 // name is the one a reference decoder reads, is <= 254 bytes, ends in '.', has
 // no empty or > 63 byte label and no '.' inside a label, and skipName moves to
 // the same offset; and if Unpack accepts, Pack succeeds and Unpack(Pack(m))
-// equals m.
+// equals m. For the reuse family: the reused Parser agrees on B with
+// Message.Unpack and, operation by operation, with a zero Parser.
 
 type c37Hex []byte
 
@@ -398,8 +403,15 @@ type c37Trace struct {
 }
 
 func c37BuildTrace(msg []byte) *c37Trace {
-	tr := &c37Trace{}
 	var p Parser
+	return c37BuildTraceWith(&p, msg)
+}
+
+// c37BuildTraceWith is c37BuildTrace on a given Parser value (a zero Parser,
+// or one that was used on another message before: the reuse family).
+func c37BuildTraceWith(pp *Parser, msg []byte) *c37Trace {
+	tr := &c37Trace{}
+	p := pp
 	h, err := p.Start(msg)
 	if err != nil {
 		tr.startErr = err.Error()
@@ -408,7 +420,7 @@ func c37BuildTrace(msg []byte) *c37Trace {
 	tr.hdr = h
 	for sec := 0; sec < 4; sec++ {
 		for {
-			line, done, err, _ := c37Step(&p, sec, c37OpFull)
+			line, done, err, _ := c37Step(p, sec, c37OpFull)
 			if done {
 				tr.secEnd[sec] = p.off
 				tr.secDone[sec] = true
@@ -596,6 +608,41 @@ func c37SectionLevel(msg []byte, tr *c37Trace, mask int, hard, soft *[]c37Fail) 
 	}
 }
 
+// c37UnpackVsTrace compares the result of Message.Unpack (m, uerr) with a
+// record-by-record trace of the same input (which must not be a runaway).
+func c37UnpackVsTrace(tr *c37Trace, m *Message, uerr error) (hard []c37Fail) {
+	switch {
+	case tr.startErr != "":
+		if uerr == nil || uerr.Error() != tr.startErr {
+			hard = append(hard, c37Fail{"C37/unpack-vs-parser/header-error-differs", fmt.Sprintf("Parser.Start fails with %q, Unpack: %v", tr.startErr, uerr)})
+		}
+	case tr.failed:
+		if uerr == nil {
+			hard = append(hard, c37Fail{"C37/unpack-vs-parser/unpack-accepts-parser-rejects", fmt.Sprintf("Unpack accepts; parsing record by record fails in section %d after %d records with %q", tr.failSec, len(tr.recs), tr.failErr)})
+		} else if uerr.Error() != tr.failErr {
+			hard = append(hard, c37Fail{"C37/unpack-vs-parser/error-differs", fmt.Sprintf("Unpack fails with %q; parsing record by record with %q", uerr, tr.failErr)})
+		}
+	default:
+		if uerr != nil {
+			hard = append(hard, c37Fail{"C37/unpack-vs-parser/unpack-rejects-parser-accepts", fmt.Sprintf("Unpack fails with %q; parsing record by record accepts all %d records", uerr, len(tr.recs))})
+			break
+		}
+		var want strings.Builder
+		c36DumpHeader(&want, &tr.hdr)
+		for _, r := range tr.recs {
+			l := r.line
+			if r.sec > 0 {
+				l = l[strings.Index(l, " ")+1:] // drop the len= field
+			}
+			want.WriteString(l)
+		}
+		if got, _ := c36Dump(m, true); got != want.String() {
+			hard = append(hard, c37Fail{"C37/unpack-vs-parser/content-differs", fmt.Sprintf("Unpack:\n%srecord by record:\n%s", got, want.String())})
+		}
+	}
+	return hard
+}
+
 // c37Check is the whole oracle for one input.
 func c37Check(w *vx.W, x c37Case, interleaveCap int) {
 	msg := c36Exact(x.In)
@@ -661,35 +708,12 @@ func c37Check(w *vx.W, x c37Case, interleaveCap int) {
 		w.Failf("C37/parser/more-records-than-input-bytes", "parsing record by record yields more than %d records from a %d-byte input (the same bytes are parsed repeatedly); last: %s\ninput (%s): %x", len(tr.recs)-1, len(msg), tr.recs[len(tr.recs)-1].line, x.Origin, c36Short(msg))
 		return
 	case tr.startErr != "":
-		if uerr == nil || uerr.Error() != tr.startErr {
-			hard = append(hard, c37Fail{"C37/unpack-vs-parser/header-error-differs", fmt.Sprintf("Parser.Start fails with %q, Unpack: %v", tr.startErr, uerr)})
-		}
+		hard = append(hard, c37UnpackVsTrace(tr, &m, uerr)...)
 		report()
 		w.Outcome("header-rejected")
 		return
-	case tr.failed:
-		if uerr == nil {
-			hard = append(hard, c37Fail{"C37/unpack-vs-parser/unpack-accepts-parser-rejects", fmt.Sprintf("Unpack accepts; parsing record by record fails in section %d after %d records with %q", tr.failSec, len(tr.recs), tr.failErr)})
-		} else if uerr.Error() != tr.failErr {
-			hard = append(hard, c37Fail{"C37/unpack-vs-parser/error-differs", fmt.Sprintf("Unpack fails with %q; parsing record by record with %q", uerr, tr.failErr)})
-		}
 	default:
-		if uerr != nil {
-			hard = append(hard, c37Fail{"C37/unpack-vs-parser/unpack-rejects-parser-accepts", fmt.Sprintf("Unpack fails with %q; parsing record by record accepts all %d records", uerr, len(tr.recs))})
-			break
-		}
-		var want strings.Builder
-		c36DumpHeader(&want, &tr.hdr)
-		for _, r := range tr.recs {
-			l := r.line
-			if r.sec > 0 {
-				l = l[strings.Index(l, " ")+1:] // drop the len= field
-			}
-			want.WriteString(l)
-		}
-		if got, _ := c36Dump(&m, true); got != want.String() {
-			hard = append(hard, c37Fail{"C37/unpack-vs-parser/content-differs", fmt.Sprintf("Unpack:\n%srecord by record:\n%s", got, want.String())})
-		}
+		hard = append(hard, c37UnpackVsTrace(tr, &m, uerr)...)
 	}
 	if report() {
 		return
@@ -1181,12 +1205,505 @@ func c37GenSvcParams(thorough bool, yield func(c37Case) bool) {
 	}
 }
 
+// ---- Parser reuse ---------------------------------------------------------------
+//
+// Parser.Start supports calling Start again on the same Parser value (it
+// resets the Parser), so a Parser that was used on a first message A and
+// abandoned at any point must, once Start()ed on a second message B, behave on
+// B exactly like a zero Parser (and therefore like Message.Unpack, which
+// always uses a zero Parser).
+
+// Operations on the first message: the six record operations, plus
+const (
+	c37POpHdrOnly  = c37NOps + iota // XHeader() and nothing else (Question() in the question section)
+	c37POpAll                       // AllX() of the current section
+	c37POpSkipAll                   // SkipAllX() of the current section
+	c37POpBadStart                  // Start() on a 3-byte input (fails)
+	c37NPOps
+)
+
+var c37POpNames = [...]string{"full", "skip", "header+typed", "header+skip", "header+header+typed", "header+full", "header-only", "all", "skip-all", "failed-start"}
+
+type c37ReuseCase struct {
+	A       c37Hex `json:"first_message_hex"`
+	ANil    bool   `json:"first_message_is_nil_slice,omitempty"`
+	AOrigin string `json:"first_message"`
+	Ops     []int  `json:"ops_on_first_message"` // indices into c37POpNames
+	B       c37Hex `json:"second_message_hex"`
+	BOrigin string `json:"second_message"`
+}
+
+// c37SectionOp calls AllX (or SkipAllX) of section sec and dumps the content.
+func c37SectionOp(p *Parser, sec int, skip bool) (got string, err error) {
+	switch {
+	case skip && sec == 0:
+		err = p.SkipAllQuestions()
+	case skip && sec == 1:
+		err = p.SkipAllAnswers()
+	case skip && sec == 2:
+		err = p.SkipAllAuthorities()
+	case skip && sec == 3:
+		err = p.SkipAllAdditionals()
+	case sec == 0:
+		var qs []Question
+		qs, err = p.AllQuestions()
+		for i := range qs {
+			got += fmt.Sprintf("Q %s type=%d class=%d\n", c36DumpName(&qs[i].Name), qs[i].Type, qs[i].Class)
+		}
+	default:
+		var rs []Resource
+		switch sec {
+		case 1:
+			rs, err = p.AllAnswers()
+		case 2:
+			rs, err = p.AllAuthorities()
+		case 3:
+			rs, err = p.AllAdditionals()
+		}
+		for i := range rs {
+			got += c37ResLine(sec, &rs[i])
+		}
+	}
+	return got, err
+}
+
+// c37Abandon starts p on the first message a and performs ops on it: every
+// operation is applied to the section the caller has reached (it moves on
+// when an operation reports the section done; errors do not stop it, a
+// caller may also give up after an error). It returns the abstract situation
+// in which the first message is abandoned, by the harness's own accounting.
+func c37Abandon(p *Parser, a []byte, ops []int) (class string) {
+	_, err := p.Start(a)
+	started := err == nil
+	sec, cnt, pending, unknown := 0, 0, false, false
+	next := func() {
+		cnt, unknown = 0, false
+		if sec < 3 {
+			sec++
+		}
+	}
+	for _, op := range ops {
+		pending = false
+		switch op {
+		case c37POpBadStart:
+			p.Start([]byte{1, 2, 3})
+			started = false
+		case c37POpAll, c37POpSkipAll:
+			if _, err := c37SectionOp(p, sec, op == c37POpSkipAll); err == nil {
+				next()
+			} else if started {
+				unknown = true // some records of the section may have been consumed
+			}
+		case c37POpHdrOnly:
+			if sec == 0 {
+				if _, done, err, _ := c37Step(p, 0, c37OpFull); done {
+					next()
+				} else if err == nil {
+					cnt++
+				}
+				break
+			}
+			if _, err := c37Secs[sec].hdr(p); err == ErrSectionDone {
+				next()
+			} else if err == nil {
+				pending = true
+			}
+		default:
+			if _, done, err, _ := c37Step(p, sec, op); done {
+				next()
+			} else if err == nil {
+				cnt++
+			}
+		}
+	}
+	switch {
+	case !started:
+		return "after-failed-start"
+	case unknown:
+		return "after-section-op-error"
+	case cnt > 0 && pending:
+		return "mid-section+header-pending"
+	case cnt > 0:
+		return "mid-section"
+	case pending:
+		return "section-start+header-pending"
+	}
+	return "section-start"
+}
+
+// c37LogEnt is what one operation on the second message yields.
+type c37LogEnt struct {
+	kind, sec, op, rec int // kind: 0 record operation, 1 Start, 2 Question after a failed Start, 3 premature header call, 4 AllX, 5 SkipAllX
+	line               string // content ("" for skips)
+	done               bool
+	err                string
+	note               string
+	off                int // parser offset afterwards
+}
+
+func (e c37LogEnt) what() string {
+	switch e.kind {
+	case 1:
+		return "Start"
+	case 2:
+		return "Question after the failed Start"
+	case 3:
+		return fmt.Sprintf("premature header call for section %d while in section %d", e.sec+1, e.sec)
+	case 4:
+		return fmt.Sprintf("AllX of section %d", e.sec)
+	case 5:
+		return fmt.Sprintf("SkipAllX of section %d", e.sec)
+	}
+	return fmt.Sprintf("%s at record %d (section %d)", c37OpNames[e.op], e.rec, e.sec)
+}
+
+func c37ErrStr(err error) string {
+	if err == nil {
+		return ""
+	}
+	return err.Error()
+}
+
+// c37RunProgram starts p on msg and performs record operation opFor(i) on the
+// i-th record until the message is finished or an operation fails; with probe
+// set, the header method of the next section is called (prematurely) before
+// every operation. Every result goes to the log.
+func c37RunProgram(p *Parser, msg []byte, opFor func(i int) int, probe bool, emit func(c37LogEnt) bool) {
+	if _, err := p.Start(msg); err != nil {
+		if !emit(c37LogEnt{kind: 1, err: err.Error(), off: p.off}) {
+			return
+		}
+		_, done, err, _ := c37Step(p, 0, c37OpFull)
+		emit(c37LogEnt{kind: 2, done: done, err: c37ErrStr(err), off: p.off})
+		return
+	}
+	i := 0
+	for sec := 0; sec < 4; sec++ {
+		for {
+			if probe && sec < 3 {
+				_, err := c37Secs[sec+1].hdr(p)
+				if !emit(c37LogEnt{kind: 3, sec: sec, err: c37ErrStr(err), off: p.off}) {
+					return
+				}
+			}
+			op := opFor(i)
+			if sec == 0 {
+				op %= 2
+			}
+			line, done, err, note := c37Step(p, sec, op)
+			if !emit(c37LogEnt{sec: sec, op: op, rec: i, line: line, done: done, err: c37ErrStr(err), note: note, off: p.off}) {
+				return
+			}
+			if err != nil || note != "" || i > len(msg) {
+				return
+			}
+			if done {
+				break
+			}
+			i++
+		}
+	}
+}
+
+// c37RunSections starts p on msg and calls AllX / SkipAllX (bit s of mask set:
+// skip) for the four sections, stopping at the first error.
+func c37RunSections(p *Parser, msg []byte, mask int, emit func(c37LogEnt) bool) {
+	if _, err := p.Start(msg); err != nil {
+		emit(c37LogEnt{kind: 1, err: err.Error(), off: p.off})
+		return
+	}
+	for sec := 0; sec < 4; sec++ {
+		skip := mask>>sec&1 != 0
+		got, err := c37SectionOp(p, sec, skip)
+		e := c37LogEnt{kind: 4, sec: sec, line: got, err: c37ErrStr(err), off: p.off}
+		if skip {
+			e.kind = 5
+		}
+		if !emit(e) || err != nil {
+			return
+		}
+	}
+}
+
+// c37Prog is one way of walking through the second message.
+type c37Prog struct {
+	family, desc string
+	run          func(p *Parser, msg []byte, emit func(c37LogEnt) bool)
+}
+
+// c37Progs: the 6 uniform and 6 rotating record-operation assignments of the
+// main oracle, three uniform ones with premature header calls, and four
+// AllX/SkipAllX combinations (all parsed, all skipped, the two alternating
+// ones: every section both ways, the first call after Start both ways).
+func c37Progs() (out []c37Prog) {
+	for shift := 0; shift < c37NOps; shift++ {
+		out = append(out,
+			c37Prog{"record-ops", "every record via " + c37OpNames[shift], func(p *Parser, b []byte, emit func(c37LogEnt) bool) {
+				c37RunProgram(p, b, func(int) int { return shift }, false, emit)
+			}},
+			c37Prog{"record-ops", fmt.Sprintf("record i via op (i+%d)%%6", shift), func(p *Parser, b []byte, emit func(c37LogEnt) bool) {
+				c37RunProgram(p, b, func(i int) int { return (i + shift) % c37NOps }, false, emit)
+			}})
+	}
+	for _, op := range []int{c37OpFull, c37OpSkip, c37OpHdrTyped} {
+		out = append(out, c37Prog{"premature-call", "every record via " + c37OpNames[op] + ", each preceded by a premature header call for the next section", func(p *Parser, b []byte, emit func(c37LogEnt) bool) {
+			c37RunProgram(p, b, func(int) int { return op }, true, emit)
+		}})
+	}
+	for _, mask := range []int{0b0000, 0b1111, 0b0101, 0b1010} {
+		out = append(out, c37Prog{"section-level", fmt.Sprintf("section-level mask %04b", mask), func(p *Parser, b []byte, emit func(c37LogEnt) bool) {
+			c37RunSections(p, b, mask, emit)
+		}})
+	}
+	return out
+}
+
+// c37FreshLogs runs every program on msg with a zero Parser.
+func c37FreshLogs(progs []c37Prog, msg []byte) [][]c37LogEnt {
+	out := make([][]c37LogEnt, len(progs))
+	for i, pr := range progs {
+		pr.run(new(Parser), msg, func(e c37LogEnt) bool { out[i] = append(out[i], e); return true })
+	}
+	return out
+}
+
+// c37EntDiff names the difference between what an operation yields on a
+// reused Parser and on a fresh one.
+func c37EntDiff(i int, r, f c37LogEnt) (kind, what string) {
+	switch {
+	case r.kind != f.kind || r.sec != f.sec || r.op != f.op || r.rec != f.rec:
+		kind = "operations-differ" // the program is the same: the walks have diverged without a visible difference
+	case r.done && !f.done:
+		kind = "section-done-early"
+	case !r.done && f.done:
+		kind = "section-done-late"
+	case r.err != "" && f.err == "":
+		kind = "rejects-what-fresh-parser-accepts"
+	case r.err == "" && f.err != "":
+		kind = "accepts-what-fresh-parser-rejects"
+	case r.err != f.err:
+		kind = "error-differs"
+	case r.note != f.note:
+		kind = "header-twice-differs"
+	case r.line != f.line:
+		kind = "content-differs"
+	default:
+		kind = "offset-differs"
+	}
+	return kind, fmt.Sprintf("step %d, %s:\nreused Parser: done=%v err=%q %s offset %d %s\nfresh Parser:  done=%v err=%q %s offset %d %s", i, r.what(), r.done, r.err, r.note, r.off, r.line, f.done, f.err, f.note, f.off, f.line)
+}
+
+// c37ReuseCheck: a Parser abandoned on x.A after x.Ops and then Start()ed on
+// x.B agrees on x.B with Message.Unpack and, operation by operation, with a
+// fresh Parser. The abandoned Parser is built once and copied for every walk
+// through x.B (a plain struct copy; the package documents Parser as safe to
+// copy). fresh holds, per second message, the logs of a zero Parser (a pure
+// function of the message, computed before the enumeration; recomputed here
+// when missing).
+func c37ReuseCheck(w *vx.W, x c37ReuseCase, progs []c37Prog, fresh map[string][][]c37LogEnt) {
+	a, b := c36Exact(x.A), c36Exact(x.B)
+	if x.ANil {
+		a = nil
+	}
+	for _, op := range x.Ops {
+		if op < 0 || op >= c37NPOps {
+			panic("c37: bad reuse op")
+		}
+	}
+	var base Parser
+	class := c37Abandon(&base, a, x.Ops)
+	ctx := func() string {
+		names := make([]string, len(x.Ops))
+		for i, op := range x.Ops {
+			names[i] = c37POpNames[op]
+		}
+		return fmt.Sprintf("\nfirst message (%s): %x\noperations on it after Start: %v (abandoned: %s)\nsecond message (%s): %x", x.AOrigin, a, names, class, x.BOrigin, b)
+	}
+
+	// (a) the full record-by-record parse with the reused Parser against Message.Unpack
+	p := base
+	tr := c37BuildTraceWith(&p, b)
+	if tr.runaway {
+		w.Failf("C37/reuse/unpack-vs-reused-parser/"+class, "the reused Parser yields more than %d records from the %d-byte second message%s", len(tr.recs)-1, len(b), ctx())
+		return
+	}
+	var m Message
+	uerr := m.Unpack(b)
+	for _, f := range c37UnpackVsTrace(tr, &m, uerr) {
+		w.Fail("C37/reuse/unpack-vs-reused-parser/"+class, "with the reused Parser as the record-by-record parser ("+strings.TrimPrefix(f.sig, "C37/unpack-vs-parser/")+"): "+f.what+ctx())
+		return
+	}
+
+	// (b) operation by operation against a fresh Parser
+	fl, ok := fresh[string(b)]
+	if !ok {
+		fl = c37FreshLogs(progs, b)
+	}
+	for i, pr := range progs {
+		p := base
+		want, n, kind, what := fl[i], 0, "", ""
+		pr.run(&p, b, func(e c37LogEnt) bool {
+			switch {
+			case n >= len(want):
+				kind, what = "more-steps-than-fresh-parser", fmt.Sprintf("step %d, %s: the fresh Parser stops after %d steps", n, e.what(), len(want))
+			case e != want[n]:
+				kind, what = c37EntDiff(n, e, want[n])
+			}
+			n++
+			return kind == ""
+		})
+		if kind == "" && n != len(want) {
+			kind, what = "fewer-steps-than-fresh-parser", fmt.Sprintf("reused Parser: %d steps, fresh Parser: %d steps", n, len(want))
+		}
+		if kind != "" {
+			w.Fail("C37/reuse/"+pr.family+"/"+class, kind+": "+pr.desc+", "+what+ctx())
+			return
+		}
+	}
+	w.Outcome("reuse:" + class)
+	if tr.startErr == "" && (strings.HasPrefix(class, "mid-section") || strings.HasSuffix(class, "header-pending") || class == "after-section-op-error") {
+		w.Nontrivial()
+	}
+}
+
+type c37Small struct {
+	b       []byte
+	origin  string
+	walkMax int // number of operations after which a caller has certainly finished the message
+}
+
+// c37SmallMsgs is the set of small messages of the reuse family (valid ones
+// with 0..3 records in every section, and invalid ones derived from them).
+func c37SmallMsgs() []c37Small {
+	h := c36H{ID: 0x1234, Flags: 1 | 8 | 16}
+	q := func(n int) c36Q { return c36Q{N: n, T: 1, C: 1} }
+	r := func(sec, owner int, b c36B) c36R { return c36R{Sec: sec, Owner: owner, Class: 1, TTL: 60, B: b} }
+	valid := []c36Msg{
+		0: {H: h},
+		1: {H: h, Q: []c36Q{q(3)}},
+		2: {H: h, Q: []c36Q{q(3), q(4)}},
+		3: {H: h, Q: []c36Q{q(2), q(3), q(4)}},
+		4: {H: h, Q: []c36Q{q(3)}, R: []c36R{r(1, 3, c36B{K: "A"})}},
+		5: {H: h, Q: []c36Q{q(4)}, R: []c36R{
+			r(1, 4, c36B{K: "CNAME", N1: 3}), r(1, 3, c36B{K: "MX", N1: 3, V: 1}),
+			r(2, 2, c36B{K: "SOA", N1: 4, N2: 11, V: 1}),
+			r(3, 3, c36B{K: "A", V: 1}), {Sec: 3, Owner: 0, Class: 4096, TTL: 0x8000, B: c36B{K: "OPT", V: 1}}}},
+		6: {H: h, R: []c36R{r(1, 1, c36B{K: "SVCB", N1: 3, V: 2}), r(3, 12, c36B{K: "UNK", V: 3})}},
+		7: {H: h, R: []c36R{r(2, 3, c36B{K: "NS", N1: 4}), r(2, 4, c36B{K: "TXT", V: 4})}},
+		8: {H: h, Q: []c36Q{q(1), q(3)}, R: []c36R{r(1, 1, c36B{K: "A"}), r(1, 3, c36B{K: "AAAA"}), r(1, 4, c36B{K: "SRV", N1: 3, V: 1})}},
+		9: {H: h, Q: []c36Q{q(0)}, R: []c36R{r(3, 0, c36B{K: "A", V: 1}), r(3, 1, c36B{K: "HTTPS", N1: 3, V: 1}), r(3, 3, c36B{K: "PTR", N1: 1})}},
+	}
+	var out []c37Small
+	encs := make([]*c37Enc, len(valid))
+	for i, d := range valid {
+		m := d.message()
+		e := c37Encode(&m, true)
+		want, _ := c36Dump(&m, false)
+		if rd, _, _, err := c36RefDecode(e.b); err != nil || rd != want {
+			panic(fmt.Sprintf("c37 harness bug: small message %d does not decode to itself: %v", i, err))
+		}
+		encs[i] = e
+		out = append(out, c37Small{e.b, fmt.Sprintf("small %d: %d questions, %d resources", i, len(d.Q), len(d.R)), len(d.Q) + len(d.R) + 5})
+	}
+	derive := func(i int, what string, f func(e *c37Enc, b []byte) []byte) {
+		b := f(encs[i], append([]byte(nil), encs[i].b...))
+		out = append(out, c37Small{b, fmt.Sprintf("small %d %s", i, what), out[i].walkMax})
+	}
+	setCount := func(ci, v int) func(*c37Enc, []byte) []byte {
+		return func(_ *c37Enc, b []byte) []byte { b[4+2*ci], b[5+2*ci] = byte(v>>8), byte(v); return b }
+	}
+	derive(5, "truncated inside the RDLENGTH of its 2nd answer", func(e *c37Enc, b []byte) []byte { return b[:e.lenPos[1]+1] })
+	derive(8, "truncated inside its 2nd question", func(e *c37Enc, b []byte) []byte { return b[:e.namePos[1]+1] })
+	derive(1, "with QDCOUNT 2", setCount(0, 2))
+	derive(4, "with ANCOUNT 2", setCount(1, 2))
+	derive(5, "with ARCOUNT 3", setCount(3, 3))
+	derive(5, "with QDCOUNT 0", setCount(0, 0))
+	derive(2, "with QDCOUNT 1 (trailing bytes)", setCount(0, 1))
+	derive(4, "with RDLENGTH one too long", func(e *c37Enc, b []byte) []byte { b[e.lenPos[0]+1]++; return b })
+	out = append(out,
+		c37Small{[]byte{0x12, 0x34, 0x81, 0x80, 0}, "5-byte input (no complete header)", 2},
+		c37Small{[]byte{}, "zero-length input", 2},
+		c37Small{nil, "nil input", 2},
+	)
+	return out
+}
+
+// c37GenReuse yields, for every first message A and every second message B of
+// the small set, every operation sequence on A of the form walk ++ tail: walk
+// = the first j operations (every j from 0 up to the length that finishes A)
+// of one of the 12 strategies of the main oracle (the same record operation
+// for every record / operation (i+shift)%6 for record i), tail = every
+// sequence of at most tailMax operations over the 10 first-message operations;
+// and every sequence of at most shortMax operations.
+func c37GenReuse(tailMax, shortMax int, yield func(c37ReuseCase) bool) {
+	small := c37SmallMsgs()
+	var tails [][]int
+	alpha := make([]byte, c37NPOps)
+	for i := range alpha {
+		alpha[i] = byte(i)
+	}
+	seqs := func(max int) (out [][]int) {
+		vx.Strings(alpha, 0, max, func(t []byte) bool {
+			s := make([]int, len(t))
+			for i, v := range t {
+				s[i] = int(v)
+			}
+			out = append(out, s)
+			return true
+		})
+		return out
+	}
+	tails = seqs(tailMax)
+	short := seqs(shortMax)
+	for _, A := range small {
+		seen := map[string]bool{}
+		var list [][]int
+		add := func(ops []int) {
+			k := fmt.Sprint(ops)
+			if !seen[k] {
+				seen[k] = true
+				list = append(list, append([]int(nil), ops...))
+			}
+		}
+		for _, s := range short {
+			add(s)
+		}
+		for j := 0; j <= A.walkMax; j++ {
+			for strat := 0; strat < 2*c37NOps; strat++ {
+				walk := make([]int, j)
+				for i := range walk {
+					walk[i] = strat % c37NOps
+					if strat >= c37NOps {
+						walk[i] = (i + strat) % c37NOps
+					}
+				}
+				for _, t := range tails {
+					add(append(walk[:j:j], t...))
+				}
+			}
+		}
+		for _, ops := range list {
+			for _, B := range small {
+				if B.b == nil {
+					continue // as a second message, nil is the zero-length input
+				}
+				x := c37ReuseCase{A: A.b, ANil: A.b == nil, AOrigin: A.origin, Ops: ops, B: B.b, BOrigin: B.origin}
+				if !yield(x) {
+					return
+				}
+			}
+		}
+	}
+}
+
 func TestVerif_C37(t *testing.T) {
 	vx.Run(t, "C37", func(c *vx.Ctx) {
 		th := !c.Quick()
 		c.Rule("parts: mut = every base message (one of each supported record type between a question and a trailing A record that share name suffixes, pointer-to-pointer chains, questions only, empty; the 254-byte name after its own tail; thorough adds more bodies and 2-record sequences), encoded by the harness with and without RFC 1035 compression, then unmodified / truncated at every length / every byte set to {0x00,0xff,0xc0,'.',v+1,v-1} / every compression pointer and every name start redirected to every offset 0..len+1 and 0x3fff / every RDLENGTH and section count set to boundary values; tail = header with every count pattern in {0,1,2,65535}^4 x every tail of <= 1 byte, and 15 one-hot/uniform count patterns x every tail of length 2..5 over {00,01,c0,0c,ff,'.'} (thorough: every 2-byte tail and length 3..6 over {00,01,40,c0,0c,ff,'.'}); namelen = questions whose expanded name has every wire length 250..260, spelled out or ending in a pointer to a 3/12/65/129-byte tail; oversize = 12 inputs > 64 KiB; svcparams = raw one-answer messages with an SVCB or HTTPS record (priority 1, root target) whose SvcParams are every key sequence of length 0..3 over {0,1,2,65535} in every order including duplicates x every value length in {0,1} per param, with RDLENGTH exact / one short / one long (thorough: length 0..4 over {0,1,2,65534,65535}, targets '.' and 'a.'). Per input: Name.unpack/skipName at every offset (first 2048) against a reference name decoder; Unpack vs record-by-record Parser; every interleaving of the 6 per-record operations {full, skip, header+typed, header+skip, header twice+typed, header+full} while their number is <= the cap, else the 6 uniform and 6 rotating assignments; all 16 AllX/SkipAllX combinations; accepted => Pack and Unpack(Pack(m)) == m. non-trivial = at least one record was accepted by the parser")
+		c.Rule("part small = the 21 messages of the reuse family through the oracle above. part reuse = Parser REUSE: every triple (first message A, operation sequence on A, second message B). A ranges over 21 small messages (10 valid ones with 0..3 records per section over all record kinds, built with compression; 8 invalid/odd ones derived from them: truncated inside the 2nd question / inside the 2nd answer, QDCOUNT/ANCOUNT/ARCOUNT one more than present, QDCOUNT 0 or 1 with the questions still there, RDLENGTH one too long; a 5-byte, a zero-length and a nil input), B over the same set without nil. One Parser value is Start()ed on A, performs the sequence (each operation applies to the section the caller has reached; a section-done result moves on; errors do not stop the caller) and is then Start()ed on B. Operations on A: the 6 record operations, header-only (XHeader and nothing else), AllX, SkipAllX, and a failing Start on a 3-byte input. Sequences: walk ++ tail, walk = the first j operations (every j from 0 to past the end of A) of each of the 6 uniform and 6 rotating assignments, tail = every sequence of <= 1 (thorough 2) operations over the 10; plus every sequence of <= 2 (thorough 4) operations. On B: full record-by-record parse with the reused Parser vs Message.Unpack (accept/reject, error, content), and, against a zero Parser step by step (section-done, error, content, white-box offset): the 6 uniform and 6 rotating record-operation assignments, 3 uniform ones with a premature next-section header call before every operation, and the AllX/SkipAllX masks 0000, 1111, 0101, 1010. non-trivial (reuse) = by the harness's own accounting A was abandoned with >= 1 record of the current section consumed, or with a header parsed and its body pending, or after a failed AllX/SkipAllX, and Start on B succeeded")
 		c.Assume("a Skip method accepting a record that its parse method rejects is allowed (documented for resource headers; skips validate less); the reverse is reported")
 		c.Assume("equality of messages is semantic (nil == empty slices, Name.Data beyond Length ignored) and ignores ResourceHeader.Length, which Pack recomputes; inputs the reference name decoder would reject but Name.unpack also rejects are not compared (the implementation may be stricter, e.g. its 10-pointer limit)")
+		c.Assume("reuse: Parser.Start on an already used Parser is supported (Start resets the Parser) and must be equivalent to using a zero Parser; the abandoned Parser is built once per case and copied (plain struct copy, documented as safe) for each walk through B; reuse after operations on more than two messages, and first messages outside the small set, are not explored")
 		icap := vx.Pick(c, 40, 250)
 		c.Note("interleaving_cap", icap)
 		check := func(w *vx.W, x c37Case) { c37Check(w, x, icap) }
@@ -1195,5 +1712,22 @@ func TestVerif_C37(t *testing.T) {
 		vx.Enumerate(c, "namelen", vx.Opts{}, c37GenNameLen, check)
 		vx.Enumerate(c, "oversize", vx.Opts{}, c37GenOversize, check)
 		vx.Enumerate(c, "svcparams", vx.Opts{}, func(yield func(c37Case) bool) { c37GenSvcParams(th, yield) }, check)
+		vx.Enumerate(c, "small", vx.Opts{}, func(yield func(c37Case) bool) {
+			for _, s := range c37SmallMsgs() {
+				if !yield(c37Case{In: s.b, Origin: s.origin}) {
+					return
+				}
+			}
+		}, check)
+		tailMax, shortMax := vx.Pick(c, 1, 2), vx.Pick(c, 2, 4)
+		c.Note("reuse_tail_max", tailMax)
+		c.Note("reuse_short_max", shortMax)
+		progs := c37Progs()
+		freshLogs := map[string][][]c37LogEnt{}
+		for _, s := range c37SmallMsgs() {
+			freshLogs[string(s.b)] = c37FreshLogs(progs, c36Exact(s.b))
+		}
+		vx.Enumerate(c, "reuse", vx.Opts{NoSample: false}, func(yield func(c37ReuseCase) bool) { c37GenReuse(tailMax, shortMax, yield) },
+			func(w *vx.W, x c37ReuseCase) { c37ReuseCheck(w, x, progs, freshLogs) })
 	})
 }
